@@ -97,6 +97,10 @@ def ptResToSexp : ParseTo.Res → Sexp
   | .typeError => .atom "TypeError"
   | .runtimeError => .atom "RuntimeError"
 
+def intResToSexp : Except String Int → Sexp
+  | .ok r => tagged "ok" [ofInt r]
+  | .error e => tagged "err" [.atom e]
+
 def intsResToSexp : Except String (List Int) → Sexp
   | .ok l => tagged "ok" [ofInts l]
   | .error e => tagged "err" [.atom e]
@@ -158,6 +162,20 @@ def handleC18 (cmd : String) (args : List Sexp) : Option Sexp :=
   | "c18.seq_keys", [.list o, .list k] => do
       let o ← o.mapM asAtom?; let k ← k.mapM asAtom?
       pure (.list [strsToSexp (CheckKeys.seqKeysEager o k), strsToSexp (CheckKeys.seqKeysCompile o k)])
+  -- translator self-test functions (Gen/PyFuns.lean st*)
+  | "c18.st_divmod", [a, b] => do
+      let a ← asInt? a; let b ← asInt? b
+      pure (match Gen.stDivmod a b with
+        | .ok (q, r) => tagged "ok" [ofInt q, ofInt r]
+        | .error e => tagged "err" [.atom e])
+  | "c18.st_clamp", [x, lo, hi] => do
+      pure (intResToSexp (Gen.stClamp (← asInt? x) (← asInt? lo) (← asInt? hi)))
+  | "c18.st_opt", [x, d] => do
+      pure (intResToSexp (Gen.stOpt (← asOptInt? x) (← asInt? d)))
+  | "c18.st_guard", [a, b] => do
+      pure (intResToSexp (Gen.stGuard (← asInt? a) (← asInt? b)))
+  | "c18.st_loop", [.list xs, k] => do
+      pure (intsResToSexp (Gen.stLoop (← ints? xs) (← asInt? k)))
   | _, _ => none
 
 end TdVerif.Drive
